@@ -10,8 +10,7 @@ import "encoding/binary"
 // panic, allocation proportional to the input.
 // Layout: Result (u32 variant, Err carries a TransactionError enum tree), fee u64,
 // pre_balances vec<u64> (u64 length), post_balances vec<u64>, [latest only] option<vec<InnerInstructions>>.
-// Symbolic: every byte. The first vector's length field is concretised by make(): it is
-// restricted to [0,2] or above limit/8.
+// Symbolic: every byte (see the restriction on length-field candidates below).
 func VerifC12TxMetaLegacy() {
 	limit := verifParam("alloc", 1<<20)
 	verifAllocLimit(int64(limit))
@@ -29,19 +28,17 @@ func VerifC12TxMetaLegacy() {
 	if n < len(data) {
 		data = data[:n]
 	}
-	if len(data) >= len(pre)+16 && len(pre) == 4 && pre[0] == 0 {
-		l := binary.LittleEndian.Uint64(data[len(pre)+8:])
-		verifAssume(l <= 2 || l > uint64(limit/8))
-		// known defect: vectors are allocated from their length field (<= 2^31-1 elements)
-		verifKnownFinding("C12-txmeta-legacy-vector-alloc", l > uint64(limit/8) && l <= 1<<31-1)
-		if l <= 2 && len(data) >= len(pre)+16+int(l)*8+8 {
-			l2 := binary.LittleEndian.Uint64(data[len(pre)+16+int(l)*8:])
-			verifAssume(l2 <= 1 || l2 > 1<<31-1)
-		}
-	} else if len(pre) != 4 {
-		// arbitrary Result bytes: the vector lengths sit at data-dependent positions
-		verifAssume(verifC12NoVec(data))
+	// Vector length fields sit at data-dependent positions and are concretised by make():
+	// every 8-byte window that can serve as one is either tiny (<= 2) or larger than the
+	// allocation limit. Known defect: a length in (limit, 2^31-1] is allocated before any
+	// element is read.
+	from := 4
+	if len(pre) == 4 {
+		from = len(pre) + 8 // Result::Ok and the fee come first
 	}
+	small, huge := verifC12Windows(data, from, uint64(limit))
+	verifAssume(small)
+	verifKnownFinding("C12-txmeta-legacy-vector-alloc", huge)
 	obj, err := BincodeDeserializeTransactionStatusMeta(data)
 	if err != nil {
 		verifReach("parse-error")
@@ -53,13 +50,14 @@ func VerifC12TxMetaLegacy() {
 	verifReach("end")
 }
 
-// verifC12NoVec: every aligned-or-not u64 in the input that could serve as a vector length is
-// either tiny or above the sequence limit (so make() sizes stay concrete-small).
-func verifC12NoVec(data []byte) bool {
-	bad := uint64(0) // branch-free accumulation
-	for i := 4; i+8 <= len(data); i++ {
+// verifC12Windows: small = every 8-byte window from position from on is <= 2 or > limit;
+// huge = some window lies in (limit, 2^31-1] (a sequence length bincode accepts).
+func verifC12Windows(data []byte, from int, limit uint64) (bool, bool) {
+	bad, huge := uint64(0), uint64(0) // branch-free accumulation
+	for i := from; i+8 <= len(data); i++ {
 		l := binary.LittleEndian.Uint64(data[i:])
-		bad |= verifIteU64(l <= 1, 0, 1) & verifIteU64(l > 1<<31-1, 0, 1)
+		bad |= verifIteU64(l <= 2, 0, 1) & verifIteU64(l > limit, 0, 1)
+		huge |= verifIteU64(l > limit, 1, 0) & verifIteU64(l <= 1<<31-1, 1, 0)
 	}
-	return bad == 0
+	return bad == 0, huge != 0
 }
